@@ -19,7 +19,9 @@ import (
 	"time"
 
 	"tunnox-core/internal/cloud/models"
+	"tunnox-core/internal/cloud/repos"
 	"tunnox-core/internal/cloud/services"
+	"tunnox-core/internal/constants"
 	"tunnox-core/internal/core/storage"
 	"tunnox-core/internal/core/storage/memory"
 	"tunnox-core/internal/packet"
@@ -576,14 +578,16 @@ func (w *c04World) setMapState() error {
 // implementation's own IsExpired/IsValid verdict, which is part of what is under test),
 // that the stored mapping is in the cell's state.
 func (w *c04World) checkMapState() error {
-	m, err := w.n.CC.GetPortMapping(w.mapID)
-	switch w.cell.MapState {
-	case "missing":
-		if err == nil {
-			return fmt.Errorf("mapping still present after delete")
+	if w.cell.MapState == "missing" {
+		// DeletePortMapping returned success; confirm on the STORE that the record is gone.
+		// (Not through GetPortMapping: whether the service still "finds" a deleted mapping is
+		// exactly what the requester's open will show.)
+		if ok, err := w.n.Store.Exists(c04MappingKey(w.mapID)); err != nil || ok {
+			return fmt.Errorf("mapping record still in the store after delete (exists=%v err=%v)", ok, err)
 		}
 		return nil
 	}
+	m, err := w.n.CC.GetPortMapping(w.mapID)
 	if err != nil {
 		return fmt.Errorf("mapping unreadable: %v", err)
 	}
@@ -620,6 +624,9 @@ func (w *c04World) checkMapState() error {
 	}
 	return nil
 }
+
+// c04MappingKey is the primary storage key of a mapping record.
+func c04MappingKey(id string) string { return constants.KeyPrefixPortMapping + ":" + id }
 
 // bridgeOf returns the bridge (on node) that holds e's connection, if any.
 func c04BridgeOf(node *miniNode, e *c04End) session.TunnelBridgeAccessor {
@@ -1864,6 +1871,203 @@ func TestVerifC04CollidingIDs(t *testing.T) {
 	run.Floor("own_colliding_record_live_at_step2", int64(len(cases)-nExp)) // with the short TTL the own record may lapse too
 	run.Floor("victim_record_expired_before_attack", int64(nExp))
 	run.Floor("victim_record_live_before_attack", int64(len(cases)-nExp))
+}
+
+// ---------------------------------------------------------------------------------
+// Lifecycle histories. A mapping goes through a sequence of ordinary operations — used by a
+// mapping-id open (which rewrites the record: RecordMappingUsage), traffic reports, a
+// usage write stamped by a node whose clock runs 3 s ahead, status toggles, revocation,
+// expiry, deletion — each issued through the real services and each acknowledged. The
+// harness keeps the state those ACKNOWLEDGED operations define; a final TunnelOpen by the
+// listen / target client is judged by the matrix policy for that state ("missing" once a
+// delete was acknowledged, "revoked" once a revoke was, ...).
+
+type c04HistModel struct {
+	deleted, revoked, expired bool
+	active                    bool
+}
+
+func (m c04HistModel) mapState() string {
+	switch {
+	case m.deleted:
+		return "missing"
+	case m.revoked && m.active:
+		return "revoked-reactivated"
+	case m.revoked:
+		return "revoked"
+	case m.expired:
+		return "expired-1m"
+	case !m.active:
+		return "inactive"
+	}
+	return "active"
+}
+
+// c04RunHistory applies ops and performs the final opens. Returns false on set-up trouble.
+func c04RunHistory(t *testing.T, run *vk.Run, kind string, ops []string, idx int) bool {
+	cell := c04Cell{Kind: kind, Tunnel: "none", MapState: "active", Identity: "listen", Cred: "id"}
+	w, err := c04NewWorld(t, run, cell, idx)
+	defer w.close()
+	if err != nil {
+		run.Count("cells_setup_failed", 1)
+		return false
+	}
+	pmRepo := repos.NewPortMappingRepo(w.n.Repo)
+	model := c04HistModel{active: true}
+	uses := 0
+	for _, op := range ops {
+		var opErr error
+		switch op {
+		case "use":
+			// a complete legitimate mapping-id tunnel: source opens, target joins, both leave
+			before := w.T.hc.Pending()
+			w.tunnel = fmt.Sprintf("tcp-tunnel-%d-%d-u%d", 1700000000000000000+int64(idx), 18080, uses)
+			uses++
+			if err := w.victimListenOpen(); err != nil {
+				opErr = err
+				break
+			}
+			if c04Ok(w.vL) {
+				run.Count("history_use_admitted", 1)
+				// the open's asynchronous target notification has finished its read of the
+				// mapping once the target's control connection received the command
+				for p := 0; p < 4000 && w.T.hc.Pending() == before; p++ {
+					time.Sleep(250 * time.Microsecond)
+				}
+				if w.T.hc.Pending() == before {
+					run.Count("watchdog_notify_not_seen", 1)
+				}
+			}
+			w.vL.c.CloseByPeer()
+			w.vL = nil
+		case "report":
+			body, _ := json.Marshal(&packet.TrafficReportRequest{MappingID: w.mapID, BytesSent: 2048, BytesReceived: 512, Connections: 1, Timestamp: time.Now().UnixMilli()})
+			opErr = w.L.Send(&packet.TransferPacket{PacketType: packet.JsonCommand, CommandPacket: &packet.CommandPacket{
+				CommandType: packet.TunnelTrafficReport, CommandId: "c04-hist", CommandBody: string(body)}})
+		case "skewed-usage-write":
+			// what RecordMappingUsage on a node whose wall clock is 3 s ahead leaves in the store
+			m, err := pmRepo.GetPortMapping(w.mapID)
+			if err != nil {
+				opErr = err
+				break
+			}
+			ahead := time.Now().Add(3 * time.Second)
+			m.LastActive, m.UpdatedAt = &ahead, ahead
+			opErr = pmRepo.UpdatePortMapping(m)
+		case "revoke":
+			if opErr = w.n.CCS.RevokeMapping(w.mapID, w.T.ClientID, "verif"); opErr == nil {
+				model.revoked, model.active = true, false
+			}
+		case "inactive":
+			if opErr = w.n.CC.UpdatePortMappingStatus(w.mapID, models.MappingStatusInactive); opErr == nil {
+				model.active = false
+			}
+		case "activate":
+			if opErr = w.n.CC.UpdatePortMappingStatus(w.mapID, models.MappingStatusActive); opErr == nil {
+				model.active = true
+			}
+		case "expire":
+			m, err := w.n.CC.GetPortMapping(w.mapID)
+			if err != nil {
+				opErr = err
+				break
+			}
+			past := time.Now().Add(-time.Minute)
+			m.ExpiresAt = &past
+			if opErr = w.n.CC.UpdatePortMapping(m); opErr == nil {
+				model.expired = true
+			}
+		case "delete":
+			if opErr = w.n.CC.DeletePortMapping(w.mapID); opErr == nil {
+				model.deleted = true
+			}
+		}
+		w.logf("op %s: err=%v -> acknowledged state %s", op, opErr, model.mapState())
+		if model.deleted && op != "delete" {
+			continue // operations on a deleted mapping may fail; nothing to record
+		}
+	}
+	state := model.mapState()
+	run.Count("history_final_state|"+state, 1)
+	// final opens, each on a fresh tunnel id
+	type fin struct{ identity, cred string }
+	fins := []fin{{"listen", "id"}}
+	if kind == "keyed" {
+		fins = append(fins, fin{"listen", "id+secret"}, fin{"target", "id+secret"})
+	}
+	for i, f := range fins {
+		c := w.L
+		if f.identity == "target" {
+			c = w.T
+		}
+		e, err := w.newEnd(w.n, "final-"+f.identity, c.ClientID, c.Secret)
+		if err != nil {
+			run.Count("cells_setup_failed", 1)
+			return false
+		}
+		req := &packet.TunnelOpenRequest{MappingID: w.mapID, TunnelID: fmt.Sprintf("tcp-tunnel-%d-%d-f%d", 1700000000000000000+int64(idx), 18080, i)}
+		if f.cred == "id+secret" {
+			req.SecretKey = w.secret
+		}
+		w.open(e, req)
+		w.logf("final open by %s with %s: ack=%s err=%q", f.identity, f.cred, c04AckStr(e.ack), e.err)
+		obs := c04Obs{Ack: c04AckStr(e.ack), SendErr: e.err}
+		if b := c04BridgeOf(w.n, e); b != nil {
+			obs.Attached = c04Side(b, e) + "@" + b.GetTunnelID()
+		}
+		obs.Trace = append([]string{"history: " + strings.Join(ops, " > ")}, w.trace...)
+		jc := c04Cell{Kind: kind, Tunnel: "after-history", MapState: state, Identity: f.identity, Cred: f.cred}
+		run.Eval(1)
+		c04Judge(run, jc, obs)
+	}
+	run.Count("cells_executed", 1)
+	return true
+}
+
+func TestVerifC04History(t *testing.T) {
+	run := vk.Start(t, "C04", "history")
+	defer run.Finish()
+	run.Rule("directed histories (use>delete, report>delete, use>use>delete, skewed-usage-write>revoke, skewed-usage-write>inactive, use>revoke, use>revoke>activate, use>expire, use>inactive>report, delete alone, ...) and seeded random histories of 2-7 operations over {use, report, skewed-usage-write, revoke, inactive, activate, expire, delete} for keyed and conncode mappings; final opens by the listen client (id, id+secret) and target client (id+secret) judged against the state defined by the acknowledged operations; distinct = (kind, history)")
+	directed := [][]string{
+		{"use", "delete"}, {"report", "delete"}, {"use", "use", "delete"}, {"use", "report", "delete"}, {"delete"},
+		{"skewed-usage-write", "revoke"}, {"skewed-usage-write", "inactive"}, {"use", "skewed-usage-write", "revoke"},
+		{"use", "revoke"}, {"use", "revoke", "activate"}, {"use", "revoke", "report"}, {"use", "expire"}, {"use", "inactive", "report"},
+		{"use", "inactive", "activate"}, {"use", "report"}, {"skewed-usage-write"},
+	}
+	n := 0
+	for _, kind := range []string{"keyed", "conncode"} {
+		for _, h := range directed {
+			run.Case(kind+"|"+strings.Join(h, ">"), nil)
+			if c04RunHistory(t, run, kind, h, 600000+n) {
+				run.Distinct(kind + "|" + strings.Join(h, ">"))
+			}
+			n++
+		}
+	}
+	r := run.Rand("histories")
+	opsAll := []string{"use", "report", "skewed-usage-write", "revoke", "inactive", "activate", "expire", "delete", "use", "report"}
+	for i := 0; i < run.Pick(40, 800); i++ {
+		var h []string
+		for j, l := 0, 2+r.Intn(6); j < l; j++ {
+			h = append(h, opsAll[r.Intn(len(opsAll))])
+		}
+		kind := c04Kinds[r.Intn(2)]
+		run.Case(kind+"|"+strings.Join(h, ">"), nil)
+		if c04RunHistory(t, run, kind, h, 600000+n) {
+			run.Distinct(kind + "|" + strings.Join(h, ">"))
+		}
+		n++
+		if run.Violations() > 20 || run.Counter("cells_setup_failed") >= c04MaxSetupFail {
+			break
+		}
+	}
+	run.Floor("cells_executed", int64(n-2))
+	run.Floor("history_use_admitted", 20)
+	run.Floor("history_final_state|missing", 8)
+	run.Floor("history_final_state|revoked", 4)
+	run.Floor("history_final_state|active", 4)
+	run.Floor("entitled_admitted|tunnel=after-history", 4)
+	run.Floor("refused_with_failure_ack", 20)
 }
 
 // TestVerifC04ForeignTunnel: the requester holds a credential that is valid — for another
